@@ -75,8 +75,8 @@ CHECKS = {
   technique='symbolic execution of the real serialisers with z3, independent grammar recogniser as oracle'),
  'C08': dict(
   text='Bounded symbolic execution of the real maildir layout code (both layouts: get_folder/get_path + control-file paths, add_folder, '
-       'remove_folder, rename_folder, list_folders) with every character of the mailbox name(s) symbolic (all names up to 3 quick / 4 '
-       'thorough characters incl. empty, ".", "..", "/", doubled delimiters, NUL; RENAME with two symbolic names) against a recording stub '
+       'remove_folder, rename_folder, list_folders) with every character of the mailbox name(s) symbolic (all names up to 7 quick / 10 '
+       'thorough characters incl. INBOX plus delimiter, empty, ".", "..", "/", doubled delimiters, NUL; RENAME with two symbolic names) against a recording stub '
        'file system whose answers are forks: every path passed to a file-system call, normalised lexically, stays inside the user root, '
        'and removal/rename/creation targets are strictly inside it.',
   note=TRUST + 'os/os.path/open/Maildir are stubs; os.path.join is a sym-aware port of posixpath.join. Lexical confinement only '
